@@ -445,7 +445,11 @@ func checkBreakGuards(c *Ctx, rule string) {
 				}
 				if cmpHolds(gs, func(l, r *Sym, op token.Token) bool {
 					return op == token.EQL && l.Strip().IsField("TableBlindState", "Level") && r.Strip().Name == "-1"
-				}) || guardedBy(gs, true, isBreakCall) {
+				}) || guardedBy(gs, true, func(s *Sym) bool {
+					// the break predicate (its definition is break-predicate:definition) asked of the
+					// blind level the table is created with, wherever that level object lives
+					return s.IsCall("TableBlindState.IsBreaking")
+				}) {
 					okCreate = true
 				}
 			}
